@@ -18,4 +18,5 @@ rsync -a sim/ "$W/sim/"
 cp /repo/go.sum "$W/sim/go.sum"
 (cd "$W/sim" && go build -trimpath -tags simsched -o "$W/worker" ./cmd/worker && go build -trimpath -o "$W/supervisor" ./cmd/supervisor)
 (cd "$W/sim" && go build -trimpath -tags simsched -race -o "$W/worker-race" ./cmd/worker)
+(cd "$W/sim" && go build -trimpath -tags simsched -gcflags=all=-d=checkptr -o "$W/worker-checkptr" ./cmd/worker)
 echo "setup: ok"
